@@ -1,4 +1,4 @@
-import Ledger.Driver.Core
+import Ledger.Driver.Ctrl
 
 /-! `ldriver_ctrl`: correspondence driver for the controller area (core-only). -/
-def main : IO Unit := Ledger.Driver.runDriver []
+def main : IO Unit := Ledger.Driver.runDriver Ledger.Driver.Ctrl.handlers
